@@ -456,6 +456,14 @@ class Body:
             if t.get('t') != 'switch':
                 continue
             e = self.expr_operand(t['op'])
+            if e[0] == 'call' and t.get('ty') == 'bool' and e[2] and e[1].split('::')[-1] in ('is_none', 'is_some', 'is_ok', 'is_err') and expr_wraps_call(e[2][0], call.bb):
+                arms = dict((v, tb) for v, tb in t['arms'])
+                t_true = arms.get(1, t['else']) if 0 in arms else arms.get(1)
+                t_false = arms.get(0, t['else'])
+                pos = e[1].split('::')[-1] in ('is_some', 'is_ok')
+                ok_t, err_t = (t_true, t_false) if pos else (t_false, t_true)
+                out.append((b, {ok_t} if ok_t is not None else set(), {err_t} if err_t is not None else set(), 'is_test'))
+                continue
             if e[0] != 'discr':
                 continue
             inner = e[1]
